@@ -80,6 +80,29 @@ pub fn gen(rng: &mut Rng, kind: &str, size: &str, profile: &str) -> Scenario {
         "headofline" => return gen_headofline(rng, kind, size),
         "budget" => return gen_budget(rng, kind, size),
         "churn" => return gen_churn(rng, kind, size),
+        "limit0" => return gen_limit0(rng, kind, size),
+        "panic" => {
+            // a mixed scenario in which one child panics in a poll and / or one child's destructor panics
+            let mut sc = gen(rng, kind, size, "mix");
+            let ids: Vec<u32> = sc.scripts.keys().copied().filter(|c| *c < 100_000).collect();
+            if !ids.is_empty() {
+                if rng.pct(70) {
+                    let c = ids[rng.below(ids.len() as u64) as usize];
+                    let st = sc.scripts.get_mut(&c).unwrap();
+                    let pos = rng.below(st.len() as u64 + 1) as usize;
+                    st.insert(pos, Step { acts: vec![], resp: "!".into() });
+                }
+                if rng.pct(50) {
+                    let c = ids[rng.below(ids.len() as u64) as usize];
+                    sc.drop_panic.push(c);
+                }
+            }
+            return sc;
+        }
+        "stale_big" => {
+            let n = 190 + rng.below(120) as u32;
+            return gen_stale_n(rng, kind, n);
+        }
         _ => {}
     }
     match kind {
@@ -408,9 +431,31 @@ fn gen_oscillate(rng: &mut Rng, kind: &str, size: &str) -> Scenario {
 /// C14 corner / C12: many stale wakers fired on vacant or reused slots, then a quiet phase
 fn gen_stale(rng: &mut Rng, kind: &str, size: &str) -> Scenario {
     let real = size == "real";
+    let n: u32 = if real { rng.pick(&[10u32, 50, 62, 100, 130, 180]) } else { 2 + rng.below(4) as u32 };
+    gen_stale_n(rng, kind, n)
+}
+
+/// documented limit 0 of for_each_concurrent ("no limit")
+fn gen_limit0(rng: &mut Rng, kind: &str, _size: &str) -> Scenario {
+    let mut sc = Scenario { kind: kind.into(), cap: 0, ..Default::default() };
+    let len = 1 + rng.below(4) as u32;
+    for c in 1..=len {
+        sc.up.push(UpStep { resp: "I".into(), c });
+        sc.scripts.insert(c, vec![Step { acts: vec![], resp: "R".into() }]);
+    }
+    sc.up.push(UpStep { resp: "E".into(), c: 0 });
+    sc.hint = "exact".into();
+    for _ in 0..4 {
+        sc.ops.push(Op::Poll { w: 1 });
+    }
+    sc.tail = "drain".into();
+    sc
+}
+
+fn gen_stale_n(rng: &mut Rng, kind: &str, n: u32) -> Scenario {
+    let real = n > 8;
     let mut sc = Scenario { kind: kind.into(), ctor: "with_capacity".into(), ..Default::default() };
     let stream = is_stream_kind(kind);
-    let n: u32 = if real { rng.pick(&[10u32, 50, 62, 100, 130, 180]) } else { 2 + rng.below(4) as u32 };
     sc.cap = n as usize + 1;
     if kind == "mb" {
         sc.ctor = "from_iter".into();
